@@ -35,10 +35,18 @@ def check_tree(doc, warning_lines=()):
             ids[i] = n
     missing_warned = " ".join(warning_lines)
     for n in doc.findall(lambda x: isinstance(x, nodes.Element)):
-        rid = n.get("refid")
-        if rid is not None and rid not in ids:
+        if "refid" not in n.attributes:
+            continue
+        rid = n["refid"]
+        if rid is None or rid not in ids:
             if isinstance(n, (nodes.reference, nodes.footnote_reference, nodes.target)):
-                if "not found" in missing_warned or "Unknown target" in missing_warned or "nreferenced" in missing_warned or "Duplicate" in missing_warned:
+                # excused only by a warning ABOUT THIS target ('... target not found: <name>', docutils' 'Unknown target name: <name>'),
+                # or by docutils' duplicate / unreferenced reports
+                from urllib.parse import unquote
+
+                if rid is not None and any(("not found" in ln or "Unknown target" in ln) and (str(rid) in ln or unquote(str(rid)) in ln) for ln in warning_lines):
+                    continue
+                if rid is not None and ("nreferenced" in missing_warned or "Duplicate" in missing_warned):
                     continue
                 out.append(("refid-exists", f"<{n.tagname}> refid {rid!r} does not exist in the tree"))
         for b in n.get("backrefs", []) if isinstance(n, (nodes.footnote,)) else []:
